@@ -178,6 +178,8 @@ class CoapAccessory:
             forced = (self.item_plan(idx, opcode, iid) or {}) if self.item_plan else {}
             if forced.get("status"):
                 status, rbody = forced["status"], b""  # rejected before touching any state
+            elif forced.get("empty_body") and opcode == OP_READ:
+                status, rbody = 0, b""  # success without a body (nothing to report for this item)
             else:
                 status, rbody = self._process(opcode, iid, bytes(body))
             spec = {"status": status, "body": rbody, "tid": tid, "control": 0x02}
